@@ -16,9 +16,14 @@ extern "C" unsigned vp_nseq(void);
 #define MAXSEQ 16
 enum { K_CM = 0, K_IF = 1, K_DATA = 2, K_RMDEV = 3, K_RMIF = 4, K_CLEAR = 5, K_VENDORSTAT = 6 };
 #define ND 3
+#ifndef IDSTEP
+#define IDSTEP 0
+#endif
 #define NI 3
-static const uint16_t DEVID[ND] = {10, 0xFFFF, 0};
-static const uint32_t IFID[NI] = {7, 0xFFFFFFFFu, 0};
+// representatives that collide in their low 8 / low 16 bits (a lookup that compares truncated ids confuses them); the id
+// comparison itself is decided for all id values by h_status_ids
+static const uint16_t DEVID[ND] = {0x010A, 0xFF0A, 0x000A};
+static const uint32_t IFID[NI] = {0x00010007u, 0xFFFF0107u, 0x00000007u};
 
 struct Ghost
 {
@@ -181,4 +186,66 @@ VP_HARNESS(h_status)
             break;
         runSequence(seq);
     }
+}
+
+
+// Lookups and updates compare whole ids - for ALL pairs of distinct device ids (16 bit) and of distinct interface ids (32 bit):
+// with one entry present, the present id is found at index 0, any other id is reported absent (= count), removing another id
+// changes nothing, and an update with another id adds a second entry instead of overwriting the first.
+static Packet* cmPacket(uint16_t dev, uint64_t tag)
+{
+    Packet* p = new Packet;
+    CaptureModulePayload pl;
+    p->setPayload(pl);
+    p->setDeviceId(dev);
+    p->setTimestamp(tag);
+    return p;
+}
+static Packet* ifPacket(uint16_t dev, uint32_t itf, uint64_t tag)
+{
+    Packet* p = new Packet;
+    InterfacePayload pl;
+    pl.setInterfaceId(itf);
+    p->setPayload(pl);
+    p->setDeviceId(dev);
+    p->setTimestamp(tag);
+    return p;
+}
+VP_HARNESS(h_status_devids)
+{
+    const uint16_t d1 = vp_u16(), d2 = vp_u16();
+    vp_assume(d1 != d2);
+    Status* s = new Status;
+    s->update(*cmPacket(d1, 0x100));
+    vp_assert(s->getDeviceStatusCount() == 1 && s->getIndexByDeviceId(d1) == 0, "C16: the device id is found at its entry");
+    vp_assert(s->getIndexByDeviceId(d2) == 1, "C16: a device id never seen is reported absent (ids compared in full)");
+#if IDSTEP == 1
+    s->removeDeviceById(d2);
+    vp_assert(s->getDeviceStatusCount() == 1, "C16: removing a device id never seen changes nothing");
+#elif IDSTEP == 2
+    s->update(*ifPacket(d2, 5, 0x101));
+    vp_assert(s->getDeviceStatusCount() == 1 && s->getDeviceStatus(0).getInterfaceStatusCount() == 0, "C16: an interface status of another device changes nothing");
+#elif IDSTEP == 3
+    s->update(*cmPacket(d2, 0x102));
+    vp_assert(s->getDeviceStatusCount() == 2, "C16: two distinct device ids give two device entries");
+#endif
+}
+VP_HARNESS(h_status_ifids)
+{
+    const uint32_t i1 = vp_u32(), i2 = vp_u32();
+    vp_assume(i1 != i2);
+    Status* s = new Status;
+    s->update(*cmPacket(0x010A, 0x100));
+    s->update(*ifPacket(0x010A, i1, 0x101));
+    DeviceStatus* ds = &s->getDeviceStatus(0);
+    vp_assert(ds->getInterfaceStatusCount() == 1 && ds->getIndexByInterfaceId(i1) == 0, "C16: the interface id is found at its entry");
+    vp_assert(ds->getInterfaceStatus(0).getInterfaceId() == i1, "C16: the entry reports its interface id");
+    vp_assert(ds->getIndexByInterfaceId(i2) == 1, "C16: an interface id never seen is reported absent (ids compared in full)");
+#if IDSTEP == 1
+    ds->removeInterfaceById(i2);
+    vp_assert(ds->getInterfaceStatusCount() == 1, "C16: removing an interface id never seen changes nothing");
+#elif IDSTEP == 3
+    ds->update(*ifPacket(0x010A, i2, 0x102));
+    vp_assert(ds->getInterfaceStatusCount() == 2, "C16: two distinct interface ids give two interface entries");
+#endif
 }
